@@ -142,10 +142,23 @@ pub struct WorkerResult {
     pub wall_s: f64,
 }
 
+/// The verif directory this binary belongs to: `$VERIF_DIR`, else the directory that contains
+/// `sim/target/...` of the running executable (so a snapshot run writes into its own snapshot),
+/// else /verif.
 pub fn verif_dir() -> PathBuf {
-    std::env::var("VERIF_DIR")
-        .map(PathBuf::from)
-        .unwrap_or_else(|_| PathBuf::from("/verif"))
+    if let Ok(v) = std::env::var("VERIF_DIR") {
+        return PathBuf::from(v);
+    }
+    if let Ok(exe) = std::env::current_exe() {
+        let mut p = exe.as_path();
+        while let Some(parent) = p.parent() {
+            if p.file_name().map(|n| n == "sim").unwrap_or(false) && parent.join("properties.jsonl").exists() {
+                return parent.to_path_buf();
+            }
+            p = parent;
+        }
+    }
+    PathBuf::from("/verif")
 }
 
 fn scratch_base() -> PathBuf {
